@@ -21,6 +21,13 @@
 //     different orders inside one function, against gc, the Lean evaluator of Model/Struct.lean
 //     and the field-index table model (structs.go, structrun.go).
 //
+//  8. zero value on the failing / absent path of comma-ok and may-fail forms, the same site executed
+//     several times so that stale register contents show (commaok.go); gc, the generator's
+//     expectation, the Lean spec and VM model of Model/CommaOk.lean.
+//
+//  9. the control-flow family: break / continue / return / recovered panics in every nesting of
+//     for, for range, switch, type switch, select, if, blocks, function literals (controlflow.go); gc.
+//
 // Oracle: the Lean evaluator's answer (Go semantics), with gc's own output on the sample.
 package main
 
@@ -57,11 +64,10 @@ var findingFeatures = map[string][]string{
 	// stream 7 (struct family)
 	"nonlocal-struct-nested-selector-assign": {"structrole.nonlocal-nested-assign"},
 	"range-struct-value-aliases-element":     {"structrole.range-value-modify"},
-	"nil-func-field-not-nil":                 {"structrole.nil-func-field"},
+	"nil-func-field-not-nil":                 {"structrole.nil-func-field", "cok.func-nil"},
 	"field-pointer-stale-after-whole-assign": {"structrole.field-pointer-whole-assign"},
 	"general-field-read-aliases-field":       {"structrole.general-field-read"},
 	// stream 8 (zero value on the failing path)
-	"nil-func-from-reflect-not-nil":          {"cok.func-nil"},
 	"range-assign-to-non-local":              {"cok.range-nonlocal"},
 	"tuple-assign-fields-of-captured-struct": {"cok.captured-struct-tuple"},
 	"indirect-interface-value-compare":       {"cok.iface-indirect"},
@@ -520,12 +526,18 @@ func run(c *hx.Ctx) error {
 	}
 	if n := os.Getenv("C01_DEV_COMMAOK"); n != "" {
 		// development aid: only the comma-ok / zero-value stream, n extra random cases
+		if n == "tier" {
+			return commaokStream(c, c.N(3, 1), c.N(0, 1500), c.N(12, 40))
+		}
 		k := 0
 		fmt.Sscan(n, &k)
-		return commaokStream(c, k, 30)
+		return commaokStream(c, 1, k, 30)
 	}
 	if n := os.Getenv("C01_DEV_CF"); n != "" {
 		// development aid: only the control-flow stream, n cases
+		if n == "tier" {
+			return controlFlowStream(c, c.N(500, 3000), c.N(25, 60))
+		}
 		k := 0
 		fmt.Sscan(n, &k)
 		return controlFlowStream(c, k, 40)
@@ -548,7 +560,7 @@ func run(c *hx.Ctx) error {
 		fmt.Sscan(n, &k)
 		return compileStream(c, &world{c: c}, k, false)
 	}
-	res.Rule = "stream 1: every binary/unary/shift/comparison/conversion operator × every integer kind × boundary-rich operand pairs (extremes, 0, ±1, 2^k±1, random), one tiny program each, three-way: Scriggo / generated VM term / Spec; stream 2: random typed expression trees of depth ≤ 4 over variables (local, parameter, package-level) and typed constants at every width, shifts with counts of every kind (small, ≥ width, huge; negative ones in their own sub-stream), division by zero under recover(); stream 5 (compile): trees of the same generator (no negative counts) as `func e(v0 T0, …) { r := <expr>; println(r) }`, the disassembled code of `r := <expr>` against the emitter model of Model/Compile.lean line by line with the same register numbers, and the outcome against the model VM running the model's code; stream 6 (conditions): boolean expressions of every shape emitCondition distinguishes (len of a string on either side × six operators × variable/constant/expression operand, integer comparisons at every kind, comparison with 0, nil, strings, floats, bools, constants, negations) with operand values at and next to the boundary, in if / if-else / for / switch case / switch tag / && / || / ! / value contexts, against the generator's own expectation, gc, and (shapes of Model/CompileCond.lean) the model's code and VM; stream 7 (struct family): generated hierarchies of struct types (up to four levels, each level embedded or named in the next at a random field position, unique field names) and one function per case over parameters of these types — a matrix of ordered pairs of selector chains of the top type lying on one line (one flattened index path a prefix of the other, or the same place through different promoted/explicit steps) × role (read, assignment, op-assignment / assignment of a composite literal), random bodies of the language of Model/Struct.lean (copies, chains, nested composite literals, +, ==, =, +=, ++ through chains), and the same bodies with snippets outside the model (pointer to struct, address of a field, package-level struct, closure, field of a call result, slice / map / array of structs, range, new, by-value call, interface, comparison, defer, func-typed and pointer fields, embedded pointers with nil), every case against gc, the in-model ones against the Lean evaluator and their Field/SetField paths as disassembled against the model's field-index table trace and against the requested paths; a case is non-trivial when it contains at least one operator applied to a variable; distinct by protocol line"
+	res.Rule = "stream 1: every binary/unary/shift/comparison/conversion operator × every integer kind × boundary-rich operand pairs (extremes, 0, ±1, 2^k±1, random), one tiny program each, three-way: Scriggo / generated VM term / Spec; stream 2: random typed expression trees of depth ≤ 4 over variables (local, parameter, package-level) and typed constants at every width, shifts with counts of every kind (small, ≥ width, huge; negative ones in their own sub-stream), division by zero under recover(); stream 5 (compile): trees of the same generator (no negative counts) as `func e(v0 T0, …) { r := <expr>; println(r) }`, the disassembled code of `r := <expr>` against the emitter model of Model/Compile.lean line by line with the same register numbers, and the outcome against the model VM running the model's code; stream 6 (conditions): boolean expressions of every shape emitCondition distinguishes (len of a string on either side × six operators × variable/constant/expression operand, integer comparisons at every kind, comparison with 0, nil, strings, floats, bools, constants, negations) with operand values at and next to the boundary, in if / if-else / for / switch case / switch tag / && / || / ! / value contexts, against the generator's own expectation, gc, and (shapes of Model/CompileCond.lean) the model's code and VM; stream 7 (struct family): generated hierarchies of struct types (up to four levels, each level embedded or named in the next at a random field position, unique field names) and one function per case over parameters of these types — a matrix of ordered pairs of selector chains of the top type lying on one line (one flattened index path a prefix of the other, or the same place through different promoted/explicit steps) × role (read, assignment, op-assignment / assignment of a composite literal), random bodies of the language of Model/Struct.lean (copies, chains, nested composite literals, +, ==, =, +=, ++ through chains), and the same bodies with snippets outside the model (pointer to struct, address of a field, package-level struct, closure, field of a call result, slice / map / array of structs, range, new, by-value call, interface, comparison, defer, func-typed and pointer fields, embedded pointers with nil), every case against gc, the in-model ones against the Lean evaluator and their Field/SetField paths as disassembled against the model's field-index table trace and against the requested paths; stream 8 (zero value on the failing / absent path): ONE site — comma-ok type assertion, map index (comma-ok and plain), receive from a closed channel (comma-ok and plain), receive clause of a select, type switch with binding, `for _, d = range` over an empty / nil slice — with a value result of each of 30 types (every integer kind, uintptr, floats, string, bool, slices, map, func, pointer, struct, array, interface{}, chan, complex128, and types defined in the program over int / string / float64 / []int / bool) executed 2–5 times with a chosen pattern of successes (with different values, the zero value included) and failures (another type, another type of the same kind, nil; absent key, nil map, empty map; closed channel; empty, nil) that always contains a success directly followed by a failure, in seven contexts (for loop, range loop, range loop over the operands, function literal / declared function called once per execution, sibling blocks, one scope with a variable per execution re-read at the end) × fifteen destinations (`:=`, `var =`, a variable holding a non-zero value, variables declared outside / captured, struct field, slice element, map element, through a pointer, package-level, assigned inside a nested literal, `_` for either result, `if d, ok := …; ok`, the one-result forms), the matrix form × type × context in full and one in three (thorough: all) of form × destination × type, every result read back after every execution; oracles: the generator's expectation, gc, and for assertion / map index / receive the Lean reference semantics and the VM model (regenerated destination code of OpAssert / OpMapIndex / OpReceive on a register file kept between the executions); stream 9 (control flow): random nestings up to four deep of for (three-clause / condition / no condition), for range (slice with index, with value, without variables, string, map, channel), switch (tag / no tag / fallthrough), type switch (with / without binding), select (ready channel / default), if-else, block, function literal called in place, with break / continue (one in three labelled, any enclosing statement of the function as target) and return under conditions on the enclosing loop counter, calls of a function that panics and recovers, literals that recover their own panic; a trace mark at the start of every body and after every statement; the shapes of the recorded control-flow findings are not generated while those are open; gc as oracle; a case is non-trivial when it contains at least one operator applied to a variable; distinct by protocol line"
 	w := &world{c: c}
 
 	// known findings: replay the recorded minimal on the real code first
@@ -840,6 +852,16 @@ func run(c *hx.Ctx) error {
 	// ---- stream 7: struct values, embedded structs, promoted fields, selector chains (gc, the Lean
 	// evaluator, the field-index table as the disassembler shows it)
 	if err := structStream(c, c.N(2, 4), c.N(1, 2), c.N(300, 1500), c.N(120, 300), c.N(80, 200), c.N(12, 40)); err != nil {
+		return err
+	}
+	// ---- stream 8: zero value on the failing / absent path of comma-ok and may-fail forms, the same
+	// site executed several times (gc, the generator's expectation, the Lean spec and VM model)
+	if err := commaokStream(c, c.N(3, 1), c.N(0, 1500), c.N(12, 40)); err != nil {
+		return err
+	}
+	// ---- stream 9: control flow — break / continue / return / recovered panics in nested
+	// for / range / switch / select / literals (gc)
+	if err := controlFlowStream(c, c.N(500, 3000), c.N(25, 60)); err != nil {
 		return err
 	}
 	res.Histogram["scriggo-builds"] = w.builds
